@@ -316,7 +316,10 @@ class C17(Prop):
                   "stated in two halves (current span per thread; key as a function of the visible fields) rather than as one non-interference theorem "
                   "over programs; threads are executed one event at a time, data races are out of scope. Not modelled: MetricsLayer not installed / "
                   "downcast failing (key unchanged), per-layer filters, span closing (the harness drops handles and exits spans, nothing observable "
-                  "depends on it). on_record's branch for a span without Labels is modelled but unreachable through the real layer.")
+                  "depends on it). The label maps live in a process-wide lockfree object pool (32-slot pages, reset hook on return): the model has no pool "
+                  "(a span's labels are a function of its own fields and its ancestors'), so pooling is exercised, not modelled — by deep/wide trees "
+                  "whose maps cross IndexMap's capacity steps, closed and followed by more simultaneously alive small spans than pool slots were used. "
+                  "on_record's branch for a span without Labels is modelled but unreachable through the real layer.")
     assumptions = [
         "span handles are used through tracing's public API (span!, Span::record_all, Dispatch::enter/exit); per-layer filters of tracing-subscriber are not used",
         "renderings modelled in Coq: str, bool, i64/u64 (itoa = decimal Display), i128/u128 (the default record_i128/u128 -> record_debug, <i128/u128 as Debug> = decimal), bytes (tracing-core HexBytes); passed to the model as data (formatting oracle computed in python): f64/f32 Debug text, ?str / ?Option Debug text, %str, the Display text of errors",
@@ -473,7 +476,7 @@ class C17(Prop):
         return dict(filters=filters, events=evs)
 
     def gen_adversarial(self, rng):
-        kind = rng.below(9)
+        kind = min(rng.below(11), 9)
         self.set_palette(rng, force_unicode=(kind == 8))
         na, nb, nc, nd = self.N
         ne = self.L[4]
@@ -542,6 +545,51 @@ class C17(Prop):
                     ["E", 0, 1], M(0, f=0), ["D", 0, 0], ["N", 0, 2, 0, [[nc, ["s", "orphan"]]]], ["N", 0, 3, 7, [[nd, ["s", "nopar"]]]],
                     ["N", 0, 4, 4, [[nd, ["s", "self"]]]], ["E", 1, 2], M(1, f=0), ["E", 1, 3], M(1, f=0), ["E", 1, 4], M(1), ["N", 1, 5, 1, []],
                     ["E", 0, 5], M(0)]
+        elif kind == 9:
+            # size-dependent behaviour of reused objects: a deep and wide span tree (up to 14 levels x up to 5 fresh names per
+            # level, so that the visible label count crosses 3/7/14/28/32/56/64), emissions on the way down, a late record at
+            # the bottom; the whole tree is closed; then MORE simultaneously alive small spans than the tree had levels
+            # (sometimes more than one 32-slot pool page), on the same and on other threads, with an emission inside each —
+            # the label maps are pooled, and a later span must never see anything of a closed one
+            nthreads = rng.range(1, 3)
+            ta = rng.below(nthreads)
+            sid = 0
+            for _round in range(rng.weighted([(4, 1), (1, 2)])):
+                depth = rng.pick([2, 3, 4, 6, 6, 7, 8, 8, 10, 12, 14, 16])
+                wide = rng.chance(1, 2)
+                ids, vis = [], 0
+                for lvl in range(depth):
+                    w = 5 if wide else rng.range(1, 5)
+                    names = ["L%d_%d" % (lvl, j) for j in range(w)]
+                    if rng.chance(1, 4):
+                        names[-1] = rng.pick(self.N)                  # a name shared between levels: inner over outer
+                    fs = [[n, ["e", None] if rng.chance(1, 8) else (["s", "v%d" % lvl] if rng.chance(3, 4) else self.rand_val(rng, False))] for n in names]
+                    evs += [["N", ta, sid, "c" if rng.chance(4, 5) or not ids else ids[-1], fs], ["E", ta, sid]]
+                    before, vis = vis, vis + sum(1 for _, v in fs if v[0] != "e")
+                    if any(before < th <= vis for th in (4, 8, 15, 29, 33, 57, 65)) or rng.chance(1, 6):
+                        evs.append(M(ta, labels=[] if rng.chance(2, 3) else None, f=0))
+                    ids.append(sid)
+                    sid += 1
+                evs += [["R", ta, ids[-1], [["L%d_0" % (depth - 1), ["s", "late"]]]], M(ta, labels=[], f=rng.below(2))]
+                for i in (reversed(ids) if rng.chance(3, 4) else rng.shuffle(ids)):
+                    evs.append(["X", ta, i])
+                for i in rng.shuffle(ids):
+                    evs.append(["D", rng.below(nthreads), i])
+                small = []
+                for _ in range(depth + 2 + rng.pick([0, 0, 3, 10, 25])):
+                    t = ta if rng.chance(1, 2) else rng.below(nthreads)
+                    r = rng.below(10)
+                    fs = [] if r < 4 else [[rng.pick(self.N), self.rand_val(rng, False) if r < 8 else ["e", None]]]
+                    evs.append(["N", t, sid, "r" if rng.chance(1, 2) else "c", fs])
+                    small.append((sid, t, fs))
+                    sid += 1
+                for i, t, fs in small:
+                    evs += [["E", t, i], M(t, labels=[] if rng.chance(3, 4) else None, f=0)]
+                    if fs and rng.chance(1, 4):
+                        evs += [["R", t, i, [[fs[0][0], self.rand_val(rng, False)]]], M(t, labels=[], f=0)]
+                    evs.append(["X", t, i])
+                for i, t, _ in small:
+                    evs.append(["D", t, i])
         elif kind == 8:
             # allow-list exactness over confusable names: nested spans carrying names of the palette, allow-lists made of
             # members, confusable non-members and names of other lengths; emissions under every filter at every depth
@@ -583,6 +631,7 @@ class C17(Prop):
         return dict(filters=filters, events=evs)
 
     _dist = None
+    _pool = None
     _inherited = []
 
     def gen(self, rng, n):
@@ -592,6 +641,7 @@ class C17(Prop):
             cases.append(self.gen_adversarial(rng) if i % 6 == 5 else self.gen_random(rng))
         if self._dist is None:          # statistics of the main batch only (not of the directed-search / shrink batches)
             self._dist = self.value_distribution(cases, self._inherited)
+            self._pool = self.pool_pressure(cases)
         return cases
 
     @staticmethod
@@ -615,8 +665,89 @@ class C17(Prop):
             add("inherited_by_child (value-routes family only)", v)
         return {k: dict(sorted(x.items())) for k, x in d.items()}
 
+    @staticmethod
+    def pool_pressure(cases):
+        """statistics only (a python replica of the span bookkeeping, counting names, not values): histogram of the number of
+        labels visible at the current span per emission, bucketed at IndexMap's capacity steps (3, 7, 14, 28, 56) and at 32 / 64;
+        number of spans created after a 'big' span (more than 28 visible labels) was closed, on the thread that created the big
+        span and on other threads; largest number of simultaneously alive spans in a case (the pool hands out 32 slots per page)"""
+        buckets = [(0, 0), (1, 3), (4, 7), (8, 14), (15, 28), (29, 32), (33, 56), (57, 64), (65, 10 ** 9)]
+        hist = {("%d-%d" % b if b[1] < 10 ** 9 else "65+") if b[0] != b[1] else str(b[0]): 0 for b in buckets}
+        def bucket(n):
+            for lo, hi in buckets:
+                if lo <= n <= hi:
+                    return ("%d-%d" % (lo, hi) if hi < 10 ** 9 else "65+") if lo != hi else str(lo)
+        after_same = after_other = cases_with_big = 0
+        max_alive = 0
+        alive_hist = {"1-8": 0, "9-16": 0, "17-32": 0, "33+": 0}
+        for c in cases:
+            h, maps, stacks = {}, {}, {}
+            big_closed_by = set()      # creating threads of big spans that are closed by now
+            peak = 0
+            def cur(t):
+                for i, dup in reversed(stacks.get(t, [])):
+                    if not dup:
+                        return i
+                return None
+            def closed(i):
+                x = h[i]
+                if x["alive"] or any(i == j for st in stacks.values() for j, _ in st):
+                    return False
+                return all(closed(k) for k, y in h.items() if y["parent"] == i)
+            for e in c["events"]:
+                k, t = e[0], e[1]
+                if k == "N":
+                    i = e[2]
+                    if i in h:
+                        continue
+                    par = cur(t) if e[3] == "c" else (None if e[3] == "r" else (e[3] if e[3] in h and h[e[3]]["alive"] else None))
+                    for j, x in h.items():
+                        if x["big"] and not x["counted"] and closed(j):
+                            x["counted"] = True
+                            big_closed_by.add(x["tid"])
+                    if big_closed_by:
+                        if t in big_closed_by:
+                            after_same += 1
+                        else:
+                            after_other += 1
+                    m = set(maps.get(par, ())) | {n for n, v in e[4] if v[0] != "e" and not (v[0] == "q" and v[1] is None)}
+                    maps[i] = m
+                    h[i] = dict(alive=True, decl={n for n, _ in e[4]}, parent=par, tid=t, big=len(m) > 28, counted=False)
+                    peak = max(peak, sum(1 for j in h if not closed(j)))
+                elif k == "R":
+                    i = e[2]
+                    if i in h and h[i]["alive"]:
+                        maps[i] |= {n for n, v in e[3] if n in h[i]["decl"] and v[0] != "e" and not (v[0] == "q" and v[1] is None)}
+                        if len(maps[i]) > 28:
+                            h[i]["big"] = True
+                elif k == "E":
+                    if e[2] in h and h[e[2]]["alive"]:
+                        st = stacks.setdefault(t, [])
+                        st.append((e[2], any(j == e[2] for j, _ in st)))
+                elif k == "X":
+                    st = stacks.get(t, [])
+                    for idx in range(len(st) - 1, -1, -1):
+                        if st[idx][0] == e[2]:
+                            del st[idx]
+                            break
+                elif k == "D":
+                    if e[2] in h:
+                        h[e[2]]["alive"] = False
+                else:
+                    i = cur(t)
+                    hist[bucket(len(maps[i]) if i is not None else 0)] += 1
+            if any(x["big"] for x in h.values()):
+                cases_with_big += 1
+            max_alive = max(max_alive, peak)
+            if peak:
+                alive_hist["1-8" if peak <= 8 else "9-16" if peak <= 16 else "17-32" if peak <= 32 else "33+"] += 1
+        return {"visible_labels_per_emission": hist, "cases_with_a_span_seeing_more_than_28_labels": cases_with_big,
+                "spans_created_after_a_big_span_closed": {"on_the_big_spans_thread": after_same, "on_another_thread": after_other},
+                "peak_simultaneously_alive_spans_per_case": alive_hist, "max_simultaneously_alive_spans": max_alive}
+
     def extra_checks(self, ctx):
         ctx["coverage"]["value_distribution"] = self._dist
+        ctx["coverage"]["pool_pressure"] = self._pool
         return []
 
     # ------------------------------------------------------------------ plumbing
@@ -692,6 +823,11 @@ class C17(Prop):
     def shrink(self, c):
         evs = c["events"]
         cands = []
+        for size in (64, 32, 16, 8, 4, 2):                 # big programs: drop blocks first
+            if len(evs) > 2 * size:
+                for i in range(0, len(evs), size):
+                    cands.append(dict(c, events=evs[:i] + evs[i + size:]))
+        cands = cands[:120]
         for i in range(len(evs)):
             cands.append(dict(c, events=evs[:i] + evs[i + 1:]))
         for i, e in enumerate(evs):
